@@ -2461,12 +2461,19 @@ static void MPSwriteRecord(
 
    if(name1 != nullptr)
    {
-      spxSnprintf(buf, sizeof(buf), "%-8.8s  %.15" SOPLEX_REAL_FORMAT, name1, (Real) value1);
+      if(spxAbs(value1) >= R(infinity))
+         spxSnprintf(buf, sizeof(buf), "%-8.8s  %s1e+100", name1, value1 < 0 ? "-" : "");
+      else
+         spxSnprintf(buf, sizeof(buf), "%-8.8s  %.15" SOPLEX_REAL_FORMAT, name1, (Real) value1);
+
       os << buf;
 
       if(name2 != nullptr)
       {
-         spxSnprintf(buf, sizeof(buf), "   %-8.8s  %.15" SOPLEX_REAL_FORMAT, name2, (Real) value2);
+         if(spxAbs(value2) >= R(infinity))
+            spxSnprintf(buf, sizeof(buf), "   %-8.8s  %s1e+100", name2, value2 < 0 ? "-" : "");
+         else
+            spxSnprintf(buf, sizeof(buf), "   %-8.8s  %.15" SOPLEX_REAL_FORMAT, name2, (Real) value2);
          os << buf;
       }
    }
@@ -2684,7 +2691,10 @@ void SPxLPBase<R>::writeMPS(
       {
          // Integer variables have default upper bound 1.0, but we should write
          // it nevertheless since CPLEX seems to assume R(infinity) otherwise.
-         MPSwriteRecord(p_output, "UP", "BOUND", getColName(*this, i, p_cnames, name1), upper(i));
+         if(upper(i) < R(infinity))
+            MPSwriteRecord(p_output, "UP", "BOUND", getColName(*this, i, p_cnames, name1), upper(i));
+         else
+            MPSwriteRecord<R>(p_output, "PL", "BOUND", getColName(*this, i, p_cnames, name1));
       }
       else
       {
